@@ -3,6 +3,7 @@ package h
 import (
 	"fmt"
 	"math/big"
+	"sort"
 	"strings"
 
 	"github.com/MinterTeam/minter-go-node/coreV2/types"
@@ -55,6 +56,15 @@ func mergeUpdates(e *types.AppState) *types.AppState {
 		c.Candidates = append(c.Candidates, nc)
 	}
 	return &c
+}
+
+func stakingPath(l string) bool {
+	for _, p := range []string{"/candidates[", "/block_list_candidates[", "/deleted_candidates[", "/frozen_funds[", "/waitlist["} {
+		if strings.HasPrefix(l, p) {
+			return true
+		}
+	}
+	return false
 }
 
 // MonGenesis implements C11.
@@ -153,12 +163,46 @@ func (m *MonGenesis) AfterBlock(s *Sim, req *BlockReq, res *BlockRes) {
 	var lost []string
 	derived := 0
 	isFresh := uint64(req.Height)%s.Opts.StakePeriod == 0
-	for _, l := range DiffExports(mergeUpdates(e), mergeUpdates(&e2), 0) {
-		if derivedPath(l) || (!isFresh && strings.HasPrefix(l, "/validators[")) {
+	reelected := false
+	all := DiffExports(mergeUpdates(e), mergeUpdates(&e2), 0)
+	for _, l := range all {
+		if !isFresh && strings.HasPrefix(l, "/validators[") {
+			reelected = true
+		}
+	}
+	for _, l := range all {
+		// InitChain elects the validator set anew; away from a payout height that can differ from the running chain's set,
+		// and what a dismissed validator had accrued goes to the total-slashed pool
+		if derivedPath(l) || (!isFresh && strings.HasPrefix(l, "/validators[")) || (reelected && strings.HasPrefix(l, "/total_slashed:")) {
+			derived++
+			continue
+		}
+		if !isFresh && stakingPath(l) {
+			// import recalculates stakes at once (pending updates applied, candidates beyond the limit removed and their
+			// stakes frozen, slots re-filled); away from a payout height that legitimately reshuffles these sections.
+			// Value must still be conserved per owner: checked below.
 			derived++
 			continue
 		}
 		lost = append(lost, l)
+	}
+	if !isFresh && len(lost) == 0 {
+		wa, wb := ComputeWealth(e), ComputeWealth(&e2)
+		for k, v := range wa.Owner {
+			o := wb.Owner[k]
+			if o == nil {
+				o = new(big.Int)
+			}
+			if o.Cmp(v) != 0 {
+				lost = append(lost, fmt.Sprintf("/wealth[%s coin %d]: %s -> %s", k.Addr.String(), k.Coin, v, o))
+			}
+		}
+		for k, v := range wb.Owner {
+			if wa.Owner[k] == nil && v.Sign() != 0 {
+				lost = append(lost, fmt.Sprintf("/wealth[%s coin %d]: 0 -> %s", k.Addr.String(), k.Coin, v))
+			}
+		}
+		sort.Strings(lost)
 	}
 	m.Res.Count("derived_value_differences", int64(derived))
 	if len(lost) > 0 {
